@@ -1340,6 +1340,59 @@ def w6(rep, f_sefo, widths):
                           sorted(wbits), sorted(rbits), sorted(wmask), sorted(rmask), sorted(smask)))
 
 
+def w16(rep, f_foam):
+    """The text form (.fm) is read into an S-expression, converted to FOAM and the S-expression is freed (foamRdSExpr).  What
+    the FOAM tree keeps of it must be its own copy: the accessors come in pairs -- sxiToBigInteger / sxiToString copy,
+    sxiToTheBigInteger / sxiToTheString hand out the S-expression's own object, which sxiFree releases.  A stored big integer
+    (2^62 and up) or a string kept by reference is freed storage inside the tree: the constant reads back as another number,
+    or the compiler faults.  In foam.c: the object of an S-expression (its `.val` of sxInteger / sxString) is never stored
+    into a structure, an array element or returned; reading it into a local that is only looked at is fine."""
+    n = 0
+    for name, fn in sorted(f_foam.funcs.items()):
+        if "body" not in fn or not fn.get("file", "").endswith("foam.c"):
+            continue
+
+        def borrowed(e):
+            e = strip(e)
+            if e is None or e["k"] != "MemberExpr" or e["n"] != "val":
+                return False
+            b = strip(e["c"][0])
+            return b is not None and b["k"] == "MemberExpr" and b["n"] in ("sxInteger", "sxString")
+        carriers = set()
+        for x in walk(fn["body"]):
+            if x["k"] == "DeclStmt":
+                for d in x.get("decls", []):
+                    if d.get("init") is not None and borrowed(d["init"]):
+                        carriers.add(d["n"])
+                        n += 1
+            elif x["k"] == "BinaryOperator" and x["op"] == "=" and borrowed(x["c"][1]):
+                n += 1
+                l = strip(x["c"][0])
+                if l is not None and l["k"] == "DeclRefExpr" and l.get("dk") != "parm" and l["n"] not in f_foam.vars:
+                    carriers.add(l["n"])
+        for x in walk(fn["body"]):
+            val = None
+            if x["k"] == "BinaryOperator" and x["op"] == "=":
+                l = strip(x["c"][0])
+                r = strip(x["c"][1])
+                is_b = borrowed(x["c"][1]) or (r is not None and r["k"] == "DeclRefExpr" and r["n"] in carriers)
+                if is_b and l is not None and not (l["k"] == "DeclRefExpr" and l["n"] in carriers):
+                    val = (x, "stored in `%s`" % render(l)[:50])
+            elif x["k"] == "ReturnStmt" and x.get("c") and x["c"][0] is not None:
+                r = strip(x["c"][0])
+                if borrowed(x["c"][0]) or (r is not None and r["k"] == "DeclRefExpr" and r["n"] in carriers):
+                    val = (x, "returned")
+            if val is not None:
+                rep.violation("W16", "tree-keeps-its-own-copy:%s" % name, "foam.c:%d (%s)" % (val[0]["l"], name),
+                              "the S-expression's own object (sxiToThe...: no copy) is %s: foamRdSExpr frees the S-expression "
+                              "right after the conversion, so the FOAM tree read from a .fm holds freed storage for every big "
+                              "integer that is not immediate (|value| >= 2^62) -- recompiling the saved unit gives other constants "
+                              "or a storage fault" % val[1])
+    rep.floor("reads of an S-expression's own object in foam.c", n, 1)
+    if not any("tree-keeps-its-own-copy" in str(v) for v in rep.violations):
+        rep.ok("W16", "tree-keeps-its-own-copy")
+
+
 def run(tier, only=None):
     rep = common.Report("C05", tier, EXPLANATION)
     f_foam = common.extract("foam.c", all_trees=True)
@@ -1365,6 +1418,7 @@ def run(tier, only=None):
     w10(rep)
     w11(rep)
     w12(rep, f_foam)
+    w16(rep, f_foam)
     from . import c19_float, immed
     immed.report(rep, "W14", units=["foam.c", "sexpr.c"], floor=2)      # integers of the text form (.fm) read back in full
     c19_float.sentinels(rep, "W13")
